@@ -87,7 +87,7 @@ CLAIMS = {
    note="'Well-formed' excludes inputs on which third-party libraries raise their own errors (unparseable certificates, keys not on the curve). One genuine defect fixed in /repo.",
    technique="Coq proof (finite table obligation + inversion) + fault-catalogue exception-class evaluation", ref="3/C19"),
  "C20": dict(
-   text="Theorems (all inputs, all oracles): accepted under P implies accepted with the same result under every looser P' (UV not required, origin string -> list -> superset, algorithms superset, UP waived); text = dict = record forms. Correspondence: catalogue responses x ordered policy pairs x forms incl. bytes subclasses and memoryviews, same dict re-verified.",
+   text="Theorems (all inputs, all oracles): accepted under P implies accepted with the same result under every looser P' (UV not required, origin string -> list -> superset, algorithms superset, UP waived); policies each looser than the other (the same SET of algorithms / origins in any order, with any repeats) give the same OUTCOME, result or exception, on every credential; text = dict = record forms. Correspondence: catalogue responses x ordered policy pairs x forms incl. bytes subclasses, memoryviews (contiguous or not), bytearrays, one-shot iterables, other Mapping types, same dict re-verified.",
    note="PARTIAL: Python buffer-protocol behaviour is only tested.",
    technique="Coq proof (monotonicity via iff characterisation) + differential policy-pair check", ref="3/C20"),
 }
